@@ -1,5 +1,7 @@
 package restful
 
+import "strings"
+
 // H_C02: every request gets exactly one outcome; 404/405/415/406 are exact;
 // dispatching never panics; trace logging does not change the outcome.
 func H_C02(tbl, router, stage int) {
@@ -67,4 +69,15 @@ func H_C02(tbl, router, stage int) {
 	o2 := h.run(c, q)
 	EnableTracing(false)
 	verifAssert(o2.panicked == o.panicked && o2.invoked == o.invoked && o2.status == o.status && o2.allow == o.allow, "C02: trace logging changes the outcome")
+	// through the container's own ServeMux (Container.ServeHTTP) the route that Dispatch runs must run as well.
+	// Left open: the URL that is a root path written with a trailing slash, minus that slash - the ServeMux
+	// answers it with a redirect to the root path.
+	if stage%10 == 0 && o.invoked >= 0 {
+		root := h.table.services[h.flat[o.invoked].svc].root
+		if !(strings.HasSuffix(root, "/") && q.path == strings.TrimRight(root, "/")) {
+			o3 := h.runServe(c, q)
+			verifAssert(o3.invoked == o.invoked && o3.nInvoked == 1, "C02: the route that Dispatch runs is not run when the request comes through the container's ServeMux (ServeHTTP)")
+			verifCover("via-servemux")
+		}
+	}
 }
